@@ -22,6 +22,11 @@ def run(ctx):
             for pad in range(0, 301, 1 if (not q or level == "auth") else 3):
                 op = ["get", "multiget", "getnext", "bulkget", "walk"][pad % 5]
                 S.append(dict(level=level, hash=h, authpw=b"maplesyrup", privpw=b"privsecret", op=op, pad=pad))
+    # (1b) every request length: OID padding sweeps the request's PDU / scoped-PDU / message lengths across the same boundaries
+    for level in ("auth", "authpriv"):
+        for op in ("padget", "padgetnext", "padbulk", "padset"):
+            for rp in range(0, 260, 1 if (not q or (level == "auth")) else 4):
+                S.append(dict(level=level, hash=("md5", "sha1")[rp % 2], authpw=b"maplesyrup", privpw=b"privsecret", op=op, reqpad=rp, pad=0))
     # (2) every password length 1..300 (RFC 3414 A.2 key derivation), both hashes
     lens = list(range(1, 301)) if not q else sorted(set([1, 2, 3, 4, 7, 8, 15, 16, 17, 31, 32, 33, 63, 64, 65, 100, 127, 128, 129, 255, 256, 257, 300] + rnd.sample(range(1, 301), 25)))
     for n in lens:
